@@ -51,6 +51,11 @@ TARGETS = {
 }
 
 _lock = threading.Lock()
+_target_locks = {}
+
+def _tlock(name):
+    with _lock:
+        return _target_locks.setdefault(name, threading.Lock())
 
 def _tree_hash():
     h = hashlib.sha256()
@@ -88,7 +93,11 @@ def _run(cmd, log):
     return r.stdout
 
 def build(name, jobs=None, quiet=True):
-    """Returns the path of the up-to-date binary for target `name`."""
+    """Returns the path of the up-to-date binary for target `name` (one thread at a time per target)."""
+    with _tlock(name):
+        return _build(name, jobs, quiet)
+
+def _build(name, jobs=None, quiet=True):
     t = TARGETS[name]
     os.makedirs(os.path.join(BUILD, "obj"), exist_ok=True)
     srcs = t["srcs"]() if callable(t["srcs"]) else t["srcs"]
